@@ -22,6 +22,34 @@ open Spec
     below are proved for (keys, factors, guards, prefixes, record layouts) -/
 theorem cfg_good : cfg = kernelCfg ∧ shapeOk = true := by decide
 
+set_option maxRecDepth 20000 in
+/-- … and the statements the model transcribes but no structured fact describes (arithmetic of
+    `used` and of the estimate, arguments of usage_percent, `round`, the vmstat `for … else` /
+    `break`, the RuntimeWarning calls and their texts, `if missing_fields:`, the exception classes
+    caught — `except OSError` around /proc/zoneinfo and /proc/vmstat) still read, after
+    `ast.unparse`, as the text the model was transcribed from -/
+theorem cfg_text_good : textOk = true := by decide
+
+/-- bytes per page the CODE multiplies pswpin / pswpout by, in a process whose `PAGESIZE` is `ps`:
+    the constant 4096 for the code as found, `ps` once it says `* PAGESIZE` (fact `swapPages`) -/
+def codePage (ps : Nat) : Nat := if swapPages then ps else 4096
+
+/-- the configuration extracted from the current source, for EVERY page size: the one the swap
+    theorems are proved for (`cfgF`), with `codePage ps` bytes per page -/
+theorem cfgAt_good (ps : Nat) : cfgAt ps = cfgF (codePage ps) := by
+  have h0 : cfgAt ps = { cfgAt 4096 with sinFactor := (cfgAt ps).sinFactor,
+                                          soutFactor := (cfgAt ps).soutFactor } := rfl
+  rw [h0, show cfgAt 4096 = kernelCfg from cfg_good.1]
+  first
+    | (have hn : Gen.C08.sinFactorNames = [] ∧ Gen.C08.soutFactorNames = [] ∧ Gen.C08.sinIdxFactor = [1, 4096]
+          ∧ Gen.C08.soutIdxFactor = [1, 4096] := by decide
+       have hp : swapPages = false := by decide
+       simp [cfgAt, codePage, cfgF, scaleAt, hn.1, hn.2.1, hn.2.2.1, hn.2.2.2, hp])
+    | (have hn : Gen.C08.sinFactorNames = ["PAGESIZE"] ∧ Gen.C08.soutFactorNames = ["PAGESIZE"]
+          ∧ Gen.C08.sinIdxFactor = [1, 1] ∧ Gen.C08.soutIdxFactor = [1, 1] := by decide
+       have hp : swapPages = true := by decide
+       simp [cfgAt, codePage, cfgF, scaleAt, hn.1, hn.2.1, hn.2.2.1, hn.2.2.2, hp])
+
 structure World where
   es : List Entry
   zs : Option (List ZLine)      -- `none`: /proc/zoneinfo cannot be opened
@@ -51,12 +79,13 @@ theorem C08_zoneinfo_roundtrip (zs : List ZLine) (h : ∀ z ∈ zs, z.WF) :
     watermarkLow cfg (linesOf (renderZoneinfo zs)) = .ok (lowSum zs) := by
   rw [cfg_good.1]; exact watermarkLow_zoneinfo zs h
 
-/-- the vmstat loop finds both counters (×4096) or reports that it did not -/
-theorem C08_vmstat_roundtrip (vs : List VLine) (h : VWF vs) :
-    vmstatLoop cfg (linesOf (renderVmstat vs)) none none =
-      .ok (pairUp ((vmstatGet vs (K "pswpin")).map (· * 4096))
-                  ((vmstatGet vs (K "pswpout")).map (· * 4096))) := by
-  rw [cfg_good.1]; exact vmstatLoop_vmstat vs h
+/-- the vmstat loop finds both counters (× the bytes per page the code uses, for every page size
+    of the process) or reports that it did not -/
+theorem C08_vmstat_roundtrip (ps : Nat) (vs : List VLine) (h : VWF vs) :
+    vmstatLoop (cfgAt ps) (linesOf (renderVmstat vs)) none none =
+      .ok (pairUp ((vmstatGet vs (K "pswpin")).map (· * codePage ps))
+                  ((vmstatGet vs (K "pswpout")).map (· * codePage ps))) := by
+  rw [cfgAt_good]; exact vmstatLoop_vmstatF _ vs h
 
 /-! ### virtual_memory -/
 
@@ -258,43 +287,130 @@ structure SwapWorld where
   es : List Entry
   sys : Sysinfo                 -- what `cext.linux_sysinfo()` would answer
   vs : Option (List VLine)      -- `none`: /proc/vmstat cannot be opened
+  ps : Nat                      -- the kernel's page size (= the process's PAGESIZE)
 
 def SwapWorld.WF (w : SwapWorld) : Prop := (∀ e ∈ w.es, e.WF) ∧ (∀ l ∈ w.vs, VWF l)
 def SwapWorld.m (w : SwapWorld) : MemInfo := MemInfo.ofEntries w.es
-def SwapWorld.spec (w : SwapWorld) : Swap :=
-  swap w.m (w.sys.total * w.sys.unit) (w.sys.free * w.sys.unit) (w.vs.map vmstatGet)
-/-- `psutil.swap_memory()` on the rendered files with the scripted sysinfo -/
+/-- the record promised when a swapped page counts for `page` bytes -/
+def SwapWorld.specAt (w : SwapWorld) (page : Nat) : Swap :=
+  swap w.m (w.sys.total * w.sys.unit) (w.sys.free * w.sys.unit) page (w.vs.map vmstatGet)
+/-- THE promise: swapped-in/out BYTES = the kernel's page counts × the kernel's page size -/
+def SwapWorld.spec (w : SwapWorld) : Swap := w.specAt w.ps
+/-- `psutil.swap_memory()` on the rendered files with the scripted sysinfo, in a process whose
+    `PAGESIZE` is the world's page size -/
 def SwapWorld.run (w : SwapWorld) : Except Err SwapOut :=
-  swapMemory cfg (renderMeminfo w.es) w.sys (w.vs.map renderVmstat)
+  swapMemory (cfgAt w.ps) (renderMeminfo w.es) w.sys (w.vs.map renderVmstat)
 
-/-- MAIN: swap_memory never fails and returns the promised record, for every meminfo (with or
-    without SwapTotal/SwapFree), every sysinfo answer, every vmstat (or none) -/
-theorem C08_swap_refines (w : SwapWorld) (hw : w.WF) : w.run = .ok (toSwapOut w.spec) := by
+/-- MAIN (what the code does, whatever the page size): swap_memory never fails and returns the
+    promised record with pages counted as `codePage w.ps` bytes, for every meminfo (with or
+    without SwapTotal/SwapFree), every sysinfo answer, every well-formed vmstat (`VWF`: names
+    distinct and prefix-clash free) or none -/
+theorem C08_swap_refines_code (w : SwapWorld) (hw : w.WF) :
+    w.run = .ok (toSwapOut (w.specAt (codePage w.ps))) := by
   unfold SwapWorld.run swapMemory
-  rw [cfg_good.1]
-  have hp : parseMeminfo kernelCfg.swParse (renderMeminfo w.es)
+  rw [cfgAt_good]
+  have hp : parseMeminfo (cfgF (codePage w.ps)).swParse (renderMeminfo w.es)
       = .ok ((w.es.map (kv 1024)).reverse) := parseMeminfo_render 1024 w.es hw.1
   rw [hp]
-  exact swapCore_spec (bridge_parsed w.es) w.sys w.vs hw.2
+  exact swapCore_specF (codePage w.ps) (bridge_parsed w.es) w.sys w.vs hw.2
+
+/-- MAIN (the property): the promised record — swapped-in/out in BYTES — on every world whose
+    page size is 4 KiB, and on EVERY world once the code multiplies by PAGESIZE -/
+theorem C08_swap_refines (w : SwapWorld) (hw : w.WF) (h : swapPages = true ∨ w.ps = 4096) :
+    w.run = .ok (toSwapOut w.spec) := by
+  rw [C08_swap_refines_code w hw]
+  unfold SwapWorld.spec codePage
+  rcases h with h | h
+  · rw [h]; rfl
+  · rw [h]; split <;> rfl
+
+/-- full-strength reading of "cumulative swapped-in/out bytes": on every kernel, whatever its
+    page size -/
+def C08_swap_bytes_Full : Prop := ∀ w : SwapWorld, w.WF → w.run = .ok (toSwapOut w.spec)
+
+/-- a 64 KiB-page kernel (arm64 / ppc64 default on several distributions) that has swapped 3
+    pages in and 5 out -/
+def swBigPages : SwapWorld :=
+  ⟨[⟨K "SwapTotal", 1000, 0, true⟩, ⟨K "SwapFree", 400, 0, true⟩], ⟨0, 0, 1⟩,
+   some [⟨K "pswpin", 3⟩, ⟨K "pswpout", 5⟩], 65536⟩
+
+theorem swBigPages_wf : swBigPages.WF := by
+  refine ⟨?_, ?_⟩
+  · intro e he
+    simp only [swBigPages, List.mem_cons, List.not_mem_nil, or_false] at he
+    rcases he with rfl | rfl <;> exact ⟨by decide, by unfold NoWs; decide⟩
+  · intro l hl
+    simp only [swBigPages, Option.mem_def, Option.some.injEq] at hl
+    subst hl
+    refine ⟨?_, ?_, by decide⟩
+    · intro x hx
+      simp only [List.mem_cons, List.not_mem_nil, or_false] at hx
+      rcases hx with rfl | rfl <;> exact ⟨by decide, by unfold NoWs; decide⟩
+    · intro x hx
+      simp only [List.mem_cons, List.not_mem_nil, or_false] at hx
+      rcases hx with rfl | rfl <;> exact ⟨by decide, by decide⟩
+
+/-- COUNTEREXAMPLE for the code as found (`* 4 * 1024`, fact `swapPages = false`): on the 64 KiB
+    world 3 pages swapped in are 196 608 bytes, the call reports 12 288 (16 times too few).
+    Replayed on the real code by the harness with `_pslinux.PAGESIZE` patched to 65536
+    (corpus:swap_64k_pages; finding C08-swap-pagesize, repair fixes/C08-swap-pagesize.diff) -/
+theorem C08_swap_hardcoded_4k_underreports (h : swapPages = false) :
+    ∃ o, swBigPages.run = .ok o ∧ o.sin = 12288 ∧ o.sout = 20480
+      ∧ swBigPages.spec.sin = 196608 ∧ swBigPages.spec.sout = 327680 := by
+  refine ⟨_, C08_swap_refines_code swBigPages swBigPages_wf, ?_, ?_, ?_, ?_⟩
+  · simp only [codePage, h]; decide
+  · simp only [codePage, h]; decide
+  · decide
+  · decide
+
+/-- the full statement holds EXACTLY when the code scales both counters by PAGESIZE: refuted for
+    the code as found, proved for the repaired one. The same theorem builds on both trees; once
+    the repair has landed the obligation `cfg_swap_pages` below turns it into the plain statement -/
+theorem C08_swap_bytes_iff_pagesize : C08_swap_bytes_Full ↔ swapPages = true := by
+  constructor
+  · intro hfull
+    cases hp : swapPages with
+    | true => rfl
+    | false =>
+      obtain ⟨o, ho, hsin, _, hspec, _⟩ := C08_swap_hardcoded_4k_underreports hp
+      rw [hfull swBigPages swBigPages_wf] at ho
+      have : (toSwapOut swBigPages.spec).sin = o.sin := by rw [Except.ok.inj ho]
+      rw [hsin] at this
+      simp only [toSwapOut] at this
+      rw [hspec] at this
+      exact absurd this (by decide)
+  · intro hp w hw
+    exact C08_swap_refines w hw (Or.inl hp)
+
+/- AFTER fixes/C08-swap-pagesize.diff HAS LANDED in /repo (fact `swapPages` becomes true), switch
+   these two on (they build on the repaired tree, validated on a scratch worktree) and run
+   `./check C08 --rebaseline`:
+
+/-- obligation: swap_memory() multiplies both page counters by PAGESIZE -/
+theorem cfg_swap_pages : swapPages = true := by decide
+
+/-- swapped-in/out are BYTES on every kernel, whatever its page size -/
+theorem C08_swap_bytes_full : C08_swap_bytes_Full := C08_swap_bytes_iff_pagesize.mpr cfg_swap_pages
+-/
 
 section
 variable (w : SwapWorld) (hw : w.WF) (o : SwapOut) (hrun : w.run = .ok o)
 include hw hrun
 
-theorem swap_out : o = toSwapOut w.spec := by
-  rw [C08_swap_refines w hw] at hrun
+theorem swap_out : o = toSwapOut (w.specAt (codePage w.ps)) := by
+  rw [C08_swap_refines_code w hw] at hrun
   exact (Except.ok.inj hrun).symm
 
 /-- used = total - free -/
 theorem C08_swap_used : o.used = (o.total : Int) - o.free := by
   rw [swap_out w hw o hrun]
-  simp [toSwapOut, SwapWorld.spec, swap]
+  simp [toSwapOut, SwapWorld.specAt, swap]
 
 /-- totals come from /proc/meminfo (kB × 1024) when both keys are listed; sysinfo not consulted -/
 theorem C08_swap_meminfo (t f : Nat) (h1 : w.m.bytes "SwapTotal" = some t)
     (h2 : w.m.bytes "SwapFree" = some f) : o.total = t ∧ o.free = f ∧ o.usedSysinfo = false := by
   rw [swap_out w hw o hrun]
-  simp [toSwapOut, SwapWorld.spec, swap, h1, h2]
+  simp [toSwapOut, SwapWorld.specAt, swap, h1, h2]
 
 /-- … and from sysinfo(2) × unit when either is missing -/
 theorem C08_swap_sysinfo_fallback
@@ -303,42 +419,61 @@ theorem C08_swap_sysinfo_fallback
     ∧ o.usedSysinfo = true := by
   rw [swap_out w hw o hrun]
   rcases h with h | h
-  · simp [toSwapOut, SwapWorld.spec, swap, h]
-  · cases h1 : w.m.bytes "SwapTotal" <;> simp [toSwapOut, SwapWorld.spec, swap, h, h1]
+  · simp [toSwapOut, SwapWorld.specAt, swap, h]
+  · cases h1 : w.m.bytes "SwapTotal" <;> simp [toSwapOut, SwapWorld.specAt, swap, h, h1]
 
 /-- percent is used / total * 100 rounded to one decimal (0 for a zero total) -/
 theorem C08_swap_percent : IsRound1 (swapPercentExact o.total o.used) ((o.percent : ℚ) / 10) := by
   rw [swap_out w hw o hrun, swapPercentExact_eq]
   exact usagePercent_isRound1 _ _
 
+/-- 0 ≤ percent ≤ 100 (kept in tenths) whenever free ≤ total -/
 theorem C08_swap_percent_range (hle : o.free ≤ o.total) : 0 ≤ o.percent ∧ o.percent ≤ 1000 := by
   have hu := C08_swap_used w hw o hrun
   rw [swap_out w hw o hrun] at hle hu ⊢
   simp only [toSwapOut] at hle hu ⊢
   exact usagePercent_range _ _ (by omega) (by omega)
 
+/-- a zero total gives percent 0 (ZeroDivisionError branch), not an exception -/
 theorem C08_swap_zero_total (h0 : o.total = 0) : o.percent = 0 := by
   rw [swap_out w hw o hrun] at h0 ⊢
   simp only [toSwapOut] at h0 ⊢
   simp [usagePercentScaled, h0]
 
-/-- sin / sout are the kernel's pswpin / pswpout page counts × 4096, without a warning -/
-theorem C08_swap_sin_sout (l : List VLine) (hl : w.vs = some l) (i u : Nat)
+/-- what the code reports: sin / sout are the kernel's pswpin / pswpout page counts ×
+    `codePage` (4096 for the code as found), without a warning -/
+theorem C08_swap_sin_sout_code (l : List VLine) (hl : w.vs = some l) (i u : Nat)
     (hi : vmstatGet l (K "pswpin") = some i) (hu : vmstatGet l (K "pswpout") = some u) :
-    o.sin = i * 4096 ∧ o.sout = u * 4096 ∧ o.warned = false := by
+    o.sin = i * codePage w.ps ∧ o.sout = u * codePage w.ps ∧ o.warned = false := by
   rw [swap_out w hw o hrun]
-  simp [toSwapOut, SwapWorld.spec, swap, hl, hi, hu]
+  simp [toSwapOut, SwapWorld.specAt, swap, hl, hi, hu]
 
-/-- unreadable /proc/vmstat or counters not listed: both reported 0, with the warning -/
+/-- the property's clause "cumulative swapped-in/out BYTES" (pages × the kernel's page size):
+    holds on 4 KiB-page kernels, and on every kernel once the code says `* PAGESIZE` -/
+theorem C08_swap_sin_sout (h4k : swapPages = true ∨ w.ps = 4096)
+    (l : List VLine) (hl : w.vs = some l) (i u : Nat)
+    (hi : vmstatGet l (K "pswpin") = some i) (hu : vmstatGet l (K "pswpout") = some u) :
+    o.sin = i * w.ps ∧ o.sout = u * w.ps ∧ o.warned = false := by
+  have hc : codePage w.ps = w.ps := by
+    unfold codePage
+    rcases h4k with h | h
+    · rw [h]; rfl
+    · rw [h]; split <;> rfl
+  have := C08_swap_sin_sout_code w hw o hrun l hl i u hi hu
+  rwa [hc] at this
+
+/-- unreadable /proc/vmstat or a counter not listed: BOTH reported 0, with the warning (the pair
+    rule: with only one of pswpin / pswpout listed the listed one is reported 0 as well — the
+    named deviation from "0 for the affected metric", see `Spec.swap`) -/
 theorem C08_swap_counters_missing
     (h : w.vs = none ∨ ∃ l, w.vs = some l ∧
           (vmstatGet l (K "pswpin") = none ∨ vmstatGet l (K "pswpout") = none)) :
     o.sin = 0 ∧ o.sout = 0 ∧ o.warned = true := by
   rw [swap_out w hw o hrun]
   rcases h with h | ⟨l, hl, h | h⟩
-  · simp [toSwapOut, SwapWorld.spec, swap, h]
-  · simp [toSwapOut, SwapWorld.spec, swap, hl, h]
-  · cases h1 : vmstatGet l (K "pswpin") <;> simp [toSwapOut, SwapWorld.spec, swap, hl, h, h1]
+  · simp [toSwapOut, SwapWorld.specAt, swap, h]
+  · simp [toSwapOut, SwapWorld.specAt, swap, hl, h]
+  · cases h1 : vmstatGet l (K "pswpin") <;> simp [toSwapOut, SwapWorld.specAt, swap, hl, h, h1]
 
 end
 
@@ -391,7 +526,7 @@ example : ∃ o, wExample.run = .ok o ∧ "available" ∈ o.missing ∧ o.avail 
 
 def swExample : SwapWorld :=
   ⟨[⟨K "SwapTotal", 1000, 5, true⟩, ⟨K "SwapFree", 400, 3, true⟩], ⟨5, 3, 4096⟩,
-   some [⟨K "pgpgin", 77⟩, ⟨K "pswpin", 3⟩, ⟨K "pswpout", 9⟩]⟩
+   some [⟨K "pgpgin", 77⟩, ⟨K "pswpin", 3⟩, ⟨K "pswpout", 9⟩], 4096⟩
 
 theorem swExample_wf : swExample.WF := by
   refine ⟨?_, ?_⟩
@@ -410,7 +545,7 @@ theorem swExample_wf : swExample.WF := by
       rcases hx with rfl | rfl | rfl <;> exact ⟨by decide, by decide⟩
 
 example : ∃ o, swExample.run = .ok o ∧ o.sin = 12288 ∧ o.sout = 36864 ∧ o.total = 1024000 := by
-  refine ⟨_, C08_swap_refines swExample swExample_wf, ?_, ?_, ?_⟩ <;> decide
+  refine ⟨_, C08_swap_refines swExample swExample_wf (Or.inr rfl), ?_, ?_, ?_⟩ <;> decide
 
 
 /-! ## Extension round: the text layer on ARBITRARY bytes — which outcome, exactly when -/
@@ -758,13 +893,21 @@ theorem C08_swap_sysinfo_bytes (w : SwapWorld) (hw : w.WF) (o : SwapOut) (hrun :
   rw [← Option.some.inj hs] at this
   exact ⟨this.1, this.2.1⟩
 
-/-! ### floats: `percent` computed in doubles against the exactly rounded value -/
+/-! ### `percent`: how far a computation that is only ε-accurate can be from the exact rounding
 
-/-- let `x` be what `float(used) / total * 100` evaluates to, within ε of the exact quotient
-    (ε < 1/20), and `r'` be `x` rounded to one decimal: then `r'` and the model's percent differ
-    by at most 0.1, and differ at all only when the exact value is within ε of a rounding
-    boundary (an odd multiple of 1/20) -/
-theorem C08_percent_float_stable (w : World) (hw : w.WF) (total free : Nat)
+  There is NO model of IEEE doubles here. The `C08_percent` theorems are about the exact quotient
+  (`usagePercentScaled`, integers). What follows is a lemma on RATIONALS in which the accuracy ε
+  of the real computation is a HYPOTHESIS (`h1 h2`), not something proved about `float.__truediv__`:
+  it states which relation between the returned value and the model's value the correspondence
+  check may tolerate (|r' − r| ≤ 0.1, and only next to a rounding boundary) and nothing more. The
+  harness instantiates ε = |exact|·2⁻⁵¹ (two correctly rounded operations; TRUSTED), counts the
+  cases inside that margin (`vm:percent_boundary_cases`) and demands bit-equality elsewhere. -/
+
+/-- IF a rational `x` is within ε < 1/20 of the exact percent and `r'` is `x` rounded to one
+    decimal (`IsRound1 x r'`), THEN `r'` and the model's percent differ by at most 0.1, and differ
+    at all only when the exact value is within ε of a rounding boundary (an odd multiple of 1/20).
+    (Was `C08_percent_float_stable`: renamed, it proves nothing about floats.) -/
+theorem C08_percent_stable_within_eps (w : World) (hw : w.WF) (total free : Nat)
     (ht : w.m.bytes "MemTotal" = some total) (hf : w.m.bytes "MemFree" = some free)
     (o : VmOut) (hrun : w.run = .ok o) (x r' ε : ℚ) (hx : IsRound1 x r')
     (h1 : x - percentExact o.total o.avail ≤ ε) (h2 : percentExact o.total o.avail - x ≤ ε)
@@ -775,7 +918,8 @@ theorem C08_percent_float_stable (w : World) (hw : w.WF) (total free : Nat)
         ∧ (2 * (k : ℚ) + 1) / 20 - percentExact o.total o.avail ≤ ε) :=
   round1_stable _ x _ r' ε (C08_percent w hw total free ht hf o hrun) hx h1 h2 hs
 
-theorem C08_swap_percent_float_stable (w : SwapWorld) (hw : w.WF) (o : SwapOut)
+/-- the same for swap_memory().percent -/
+theorem C08_swap_percent_stable_within_eps (w : SwapWorld) (hw : w.WF) (o : SwapOut)
     (hrun : w.run = .ok o) (x r' ε : ℚ) (hx : IsRound1 x r')
     (h1 : x - swapPercentExact o.total o.used ≤ ε) (h2 : swapPercentExact o.total o.used - x ≤ ε)
     (hs : ε < 1 / 20) :
